@@ -11,6 +11,11 @@ Streams (model `Wpull.Url` vs the real code in ctx.repo):
   sitemaps ProcessingRule.add_extra_urls (--sitemaps, level-0 item) for start URLs over the host grammar (IPv6 literals with and
            without port, IPv4 spellings, IDN, default / other ports, every network scheme): never raises; queues what URLInfo gives
            for scheme://hostname_with_port/robots.txt and /sitemap.xml; model extraUrls agrees
+  longrun  one long-lived process: 3500 (thorough 30000) distinct hosts / paths / queries are parsed first, no cache cleared; each
+           must give its expected normal form; at the end earlier and new inputs are parsed again and compared with the (history-
+           free) model; a failure carries the number of URLs parsed before and the replay re-creates that history
+  byte-sweep  the `encoding` argument as a dimension: 19 codecs x every byte value 0x80..0xFF x {path, query, fragment, user info}
+  pct256   percent_encode for all 256 byte values x 5 encode sets
   scrape   the consumer of the logging variant: the real ProcessingRule.scrape_document / _process_scrape_info (real FetchRule,
            real URLRewriter with every option combination incl. none, stub ItemSession table and scraper result) on link lists
            mixing parseable links with every class of unparseable one: never raises, unparseable skipped, parseable queued
@@ -33,7 +38,8 @@ RULE = ('parse/orlog: malformed stream (bracket and colon soup over {h t p : / .
         'alphabet. non-trivial = input non-empty; distinct by (stream, url, default_scheme, encoding)')
 TRUSTED = list(uc.TRUSTED_COMMON) + [
     'urllib.parse.urljoin raises only ValueError (hypothesis of urljoin_safe_only_valueerror; monitored on every sampled call)']
-ASSUMPTIONS = ['termination of the real code is observed through a 10 s guard per call; termination of the model is '
+ASSUMPTIONS = ['the verdict for an input does not depend on what the process parsed before: checked by the longrun stream (the model is history-free)',
+               'termination of the real code is observed through a 10 s guard per call; termination of the model is '
                "Lean's totality check (no partial def, no fuel in the URL model except natDec's digit fuel)",
                'document encodings are ASCII-compatible stateless codecs (see C10)']
 UNPROVED = []
@@ -578,7 +584,12 @@ def replay(ctx, case, kind=None, where=None):
     wu = uc.setup(ctx)
     s = case.get('stream', 'parse')
     if s in ('parse', 'orlog'):
+        uc.replay_history(wu, case)
         batch(ctx, wu, [uc.case_of_json(case)], op=s)
+    elif s == 'longrun':
+        uc.replay_longrun(ctx, wu, case)
+    elif s == 'pct':
+        uc.stream_pct256(ctx, wu)
     elif s == 'join':
         join_batch(ctx, wu, [(case['base'], case['url'])])
     elif s == 'scrape':
@@ -593,26 +604,36 @@ def replay(ctx, case, kind=None, where=None):
 
 def run(ctx):
     wu = uc.setup(ctx)
-    uc.stream_consts(ctx, wu)
+    rs = uc.run_stream
+    rs(ctx, 'consts', lambda: uc.stream_consts(ctx, wu))
     for j in uc.load_corpus(ctx, 'C11'):
-        replay(ctx, j.get('case', j))
+        rs(ctx, 'corpus', lambda j=j: replay(ctx, j.get('case', j)))
+    # long-lived process: several thousand distinct hosts / paths / queries before anything else is parsed
+    rs(ctx, 'longrun', lambda: uc.warm_process(ctx, wu, ctx.scale(3500, 30000)))
     rng = ctx.rng
-    uc.stream_int(ctx, ctx.scale(3000, 60000), ctx.subrng('int'))
+    rs(ctx, 'pct256', lambda: uc.stream_pct256(ctx, wu))
+    rs(ctx, 'int', lambda: uc.stream_int(ctx, ctx.scale(3000, 60000), ctx.subrng('int')))
+    sweep = uc.byte_sweep_cases()
+    rs(ctx, 'byte-sweep', lambda: batch(ctx, wu, sweep))
+    rs(ctx, 'byte-sweep-orlog', lambda: batch(ctx, wu, [uc.Case(c.url, 'http', c.encoding, c.kind) for c in sweep[::2]], op='orlog'))
     n_mal, n_seed, n_spec = ctx.scale(6000, 150000), ctx.scale(3000, 80000), ctx.scale(2000, 50000)
     chunks = max(1, n_mal // 6000)
     for k in range(chunks):
         cases = gen_cases(ctx, rng, n_mal // chunks, n_seed // chunks, n_spec // chunks)
-        batch(ctx, wu, cases)
+        rs(ctx, 'parse', lambda: batch(ctx, wu, cases))
         ol = [uc.Case(c.url, 'http', c.encoding, c.kind) for c in cases[::3]]
-        batch(ctx, wu, ol, op='orlog')
-    join_batch(ctx, wu, gen_pairs(ctx, ctx.subrng('join'), ctx.scale(3000, 60000)))
-    scrape_batch(ctx, wu, gen_link_lists(ctx, ctx.subrng('scrape'), ctx.scale(400, 6000)))
-    sitemaps_batch(ctx, wu, gen_starts(ctx, ctx.subrng('sitemaps'), ctx.scale(600, 10000)))
+        rs(ctx, 'orlog', lambda: batch(ctx, wu, ol, op='orlog'))
+    rs(ctx, 'join', lambda: join_batch(ctx, wu, gen_pairs(ctx, ctx.subrng('join'), ctx.scale(3000, 60000))))
+    rs(ctx, 'scrape', lambda: scrape_batch(ctx, wu, gen_link_lists(ctx, ctx.subrng('scrape'), ctx.scale(400, 6000))))
+    rs(ctx, 'sitemaps', lambda: sitemaps_batch(ctx, wu, gen_starts(ctx, ctx.subrng('sitemaps'), ctx.scale(600, 10000))))
     hrng = ctx.subrng('html')
-    html_batch(ctx, wu, [gen_doc(hrng) for _ in range(ctx.scale(600, 10000))])
+    rs(ctx, 'htmljoin', lambda: html_batch(ctx, wu, [gen_doc(hrng) for _ in range(ctx.scale(600, 10000))]))
     if ctx.tier == 'thorough' and ctx.boost == 1:
-        exhaustive(ctx, wu)
+        rs(ctx, 'exhaustive', lambda: exhaustive(ctx, wu))
         ctx.exhaustive = True
+    # the verdict for a URL must not depend on what was parsed before: earlier and new inputs again, caches kept
+    rs(ctx, 'longrun-recheck', lambda: uc.recheck_process(ctx, wu, ctx.subrng('recheck'), 300, 300))
+    ctx.note('long_lived_process', '%d URLs parsed in this one process' % uc.HISTORY['parsed'])
 
 
 def search(ctx):
